@@ -23,7 +23,7 @@ class CheckValidECKey:
   self_fields = dict(SELF_BASE)
   requires = list(REQ_SELF)
   entry_ghost = list(ENTRY)
-  loops = {0: dict(invariant=list(INV), head=list(HEAD), body_end=[
+  loops = {0: dict(independent=True, invariant=list(INV), head=list(HEAD), body_end=[
       ("C16", "g_sets == 1"), ("C16", "g_name == self.check_name"), ("C16", "g_sev == self.severity"),
       # flagged exactly: unknown / unsupported curve, or the point is not a valid public key of the curve
       ("C06", "g_res == (curve is None or not ufb('valid_key', curve.a, curve.b, curve.mod, curve.n, curve.h, False, "
@@ -42,7 +42,7 @@ class CheckWeakCurve:
   self_fields = dict(SELF_BASE)
   requires = list(REQ_SELF)
   entry_ghost = list(ENTRY)
-  loops = {0: dict(invariant=list(INV), head=list(HEAD), body_end=[
+  loops = {0: dict(independent=True, invariant=list(INV), head=list(HEAD), body_end=[
       # an entry exists exactly for keys on a known curve; positive exactly when the order is shorter than 224 bits
       ("C16,C06", "g_sets == (0 if curve is None else 1)"),
       ("C16", "implies(g_sets == 1, g_name == self.check_name and g_sev == self.severity)"),
@@ -65,7 +65,7 @@ class CheckWeakECPrivateKey:
   self_fields = dict(SELF_BASE)
   requires = list(REQ_SELF)
   entry_ghost = list(ENTRY)
-  loops = {0: dict(cut=True, cases=True, invariant=list(INV)), 1: dict(
+  loops = {0: dict(cut=True, cases=True, invariant=list(INV), independent=True), 1: dict(independent=True, 
       invariant=list(INV) + ["len(discrete_logs) == len(keys)", "len(points) == len(keys)"],
       head=list(HEAD),
       body_end=list(KEY_BODY_END) + [
@@ -91,7 +91,7 @@ class CheckECKeySmallDifference:
   self_fields = dict(SELF_BASE, _max_diff="int")
   requires = list(REQ_SELF)
   entry_ghost = list(ENTRY)
-  loops = {0: dict(cut=True, cases=True, invariant=list(INV)), 1: dict(
+  loops = {0: dict(cut=True, cases=True, invariant=list(INV), independent=True), 1: dict(independent=True, 
       invariant=list(INV) + ["len(result) == len(keys)"],
       head=list(HEAD),
       body_end=list(KEY_BODY_END) + [("C02,C10,C17", "g_res == (result[_i1] is not None)")],
